@@ -1,6 +1,8 @@
 // h_variant.cpp - C07: Variant against a tagged-tree value model (plain C structs), coercion table re-implemented independently,
 // lazy-copy independence (every variable is compared with its own model after every operation), x == copy_of(x) for every intact copy.
 // mode: hist (swarm random histories over 4..6 Variant variables)
+// typed self-assignment (K_ASSIGN_OWN): v = v.toX() / v = ((const Variant&)v).toX() for X in String/List/Array/Map, on a variable or on a nested element,
+// sole owner and shared: the value last given is the Variant's own value, so value, type and every other variable stay as they are.
 #include "vh.hpp"
 #include <nstd/Variant.hpp>
 #include <math.h>
@@ -490,14 +492,53 @@ static const Variant* pickDescendant(const Variant& v, const MV& m, Rng& r, cons
   return c;
 }
 
+// a random descendant of a container value reached through the MUTABLE accessors (detaches shared payloads on the way; values stay as they are); 0 when there is none
+static Variant* descendMutable(Variant& v, MV& m, Rng& r, MV*& dm, Text& path, int depth = 0) {
+  if (!isContainer(m.t) || !m.kids.n) return 0;
+  size_t at = (size_t)r.below(m.kids.n); Variant* c = 0;
+  if (v.data->ref > 1) { ++g_cowClones; if (depth) ++g_nestedClones; }
+  if (m.t == T_LIST) { List<Variant>& l = v.toList(); List<Variant>::Iterator it = l.begin(); for (size_t k = 0; k < at; ++k) ++it; c = &*it; path.addf(".toList()[%lu]", (unsigned long)at); }
+  else if (m.t == T_ARRAY) { Array<Variant>& a = v.toArray(); Variant* p = a; c = &p[at]; path.addf(".toArray()[%lu]", (unsigned long)at); }
+  else { HashMap<String, Variant>& h = v.toMap(); HashMap<String, Variant>::Iterator it = h.find(String(m.keys[at].c(), m.keys[at].n)); if (it == h.end()) fail(key("value"), "map entry \"%s\" is not found by its key", m.keys[at].c()); c = &*it; path.addf(".toMap(){%s}", m.keys[at].c()); }
+  dm = &m.kids[at];
+  if (r.chance(1, 3)) { MV* dm2 = 0; Variant* c2 = descendMutable(*c, *dm, r, dm2, path, depth + 1); if (c2) { dm = dm2; return c2; } }
+  return c;
+}
+
+// e = e.toX() (mutable accessor) or e = ((const Variant&)e).toX() (const accessor) through the typed overload operator=(const X&), X = `want`.
+// want == em.t: the argument IS the payload of e (unique) / the payload e shares (shared): the value last given is e's own value -> the model stays as it is.
+// want != em.t: the argument is the accessor's view of a value of another type (empty container, decimal text) -> the model becomes that view.
+static long g_ownInPlace[NTYPES];
+static bool assignOwnValue(Variant& e, MV& em, int want, bool mut, bool nested, const char* lhs) {
+  const Variant& ce = e;
+  const char* hc = holdClass(e); bool same = em.t == want;
+  static const char* acc[] = { "?", "?", "?", "?", "?", "?", "?", "Map", "List", "Array", "String" };
+  if (same) setctxf("Variant.operator=(%s)/arg=own-value-%s/%s%s", tname[want], mut ? "mutable" : "const", hc, nested ? "/nested" : "");
+  else setctxf("Variant.operator=(%s)/arg=own-view-%s/from=%s/%s%s", tname[want], mut ? "mutable" : "const", tname[em.t], hc, nested ? "/nested" : "");
+  if (mut) hist.addf("%s = %s.to%s()   [%s; receiver %s, %s]\n", lhs, lhs, acc[want], same ? "own value" : "own view as another type", tname[em.t], hc);
+  else hist.addf("%s = ((const Variant&)%s).to%s()   [%s; receiver %s, %s]\n", lhs, lhs, acc[want], same ? "own value" : "own view as another type", tname[em.t], hc);
+  { char t[96]; snprintf(t, sizeof t, "%s<-%s/%s/%s/%s", tname[em.t], tname[want], mut ? "mutable" : "const", hc, nested ? "nested" : "top"); setItem("own_value_cells", t); }
+  if (same && e.data->ref > 1 && mut) { ++g_cowClones; if (nested) ++g_nestedClones; }
+  if (same && (mut || e.data->ref == 1)) ++g_ownInPlace[want];    // the overload's in-place branch runs with its argument aliasing its destination
+  switch (want) {
+  case T_STRING: if (mut) e = e.toString(); else e = ce.toString(); break;
+  case T_LIST: if (mut) e = e.toList(); else e = ce.toList(); break;
+  case T_ARRAY: if (mut) e = e.toArray(); else e = ce.toArray(); break;
+  default: if (mut) e = e.toMap(); else e = ce.toMap(); break;
+  }
+  if (same) return false;
+  if (want == T_STRING) { Str t; m_toString(em, t); em.reset(T_STRING); em.s = t; } else em.reset(want);
+  return true;
+}
+
 // ------------------------------------------------------------------------------------------------ one history
 static void historyCase(long idx) {
   Rng r(opts.seed, 7001, (u64)idx);
   NV = (int)r.range(4, 6); int nops = (int)r.range(20, 120);
-  enum { K_ASSIGN_SCALAR, K_ASSIGN_STRING, K_ASSIGN_CONTAINER, K_CONSTRUCT, K_COPYCTOR, K_ASSIGNVAR, K_SWAP, K_CLEAR, K_MUTATE, K_MUTATE2, K_ASSIGN_ELEM, K_ASSIGN_VIEW, NK };
+  enum { K_ASSIGN_SCALAR, K_ASSIGN_STRING, K_ASSIGN_CONTAINER, K_CONSTRUCT, K_COPYCTOR, K_ASSIGNVAR, K_SWAP, K_CLEAR, K_MUTATE, K_MUTATE2, K_ASSIGN_ELEM, K_ASSIGN_VIEW, K_ASSIGN_OWN, NK };
   int w[NK], tot = 0;
   for (int k = 0; k < NK; ++k) w[k] = r.chance(1, 4) ? 0 : (int)r.range(1, 10);
-  w[K_MUTATE] += 3; w[K_COPYCTOR] += 1; w[K_ASSIGNVAR] += 2; w[K_ASSIGN_CONTAINER] += 1; if (w[K_CLEAR] > 2) w[K_CLEAR] = 2;
+  w[K_MUTATE] += 3; w[K_COPYCTOR] += 1; w[K_ASSIGNVAR] += 2; w[K_ASSIGN_CONTAINER] += 1; w[K_ASSIGN_OWN] += 1; if (w[K_CLEAR] > 2) w[K_CLEAR] = 2;
   bool noOwnElem = excludedPrefix("Variant.operator=(Variant)/arg=own-element");   // trigger: the assigned value lives inside the receiver's own payload
   for (int k = 0; k < NK; ++k) tot += w[k];
   hist.addf("# Variant history vars=%d nops=%d\n", NV, nops);
@@ -507,7 +548,7 @@ static void historyCase(long idx) {
   for (int o = 0; o < nops; ++o) {
     int pick = (int)r.below((u64)tot), kind = 0; while (pick >= w[kind]) pick -= w[kind++];
     int i = (int)r.below((u64)NV), j = (int)r.below((u64)NV);
-    if (kind == K_MUTATE || kind == K_MUTATE2) for (int t = 0; t < 3 && !isHeap(M[i]->t); ++t) i = (int)r.below((u64)NV);   // prefer variables that hold a payload
+    if (kind == K_MUTATE || kind == K_MUTATE2 || kind == K_ASSIGN_OWN) for (int t = 0; t < 3 && !isHeap(M[i]->t); ++t) i = (int)r.below((u64)NV);   // prefer variables that hold a payload
     Variant& v = *V[i]; MV& m = *M[i];
     fp = mix(fp, (u64)kind * 16 + (u64)m.t);
     char mutCtx[256]; mutCtx[0] = 0;
@@ -576,12 +617,23 @@ static void historyCase(long idx) {
       v = *d;
       *M[i] = t; bump(i); cnt("op_assign_element"); if (src == i) cnt("op_assign_own_element"); break; }
     case K_ASSIGN_VIEW: {
-      if (i == j || !isContainer(M[j]->t)) break;     // v = v.toList() is a self-assignment of the container (List/Array/HashMap), not a Variant operation
+      if (i == j || !isContainer(M[j]->t)) break;     // the receiver's own view: K_ASSIGN_OWN
       const char* hc = holdClass(v);
       setctxf("Variant.operator=(%s)/arg=view-of-other/from=%s/%s", tname[M[j]->t], tname[m.t], hc); hist.addf("v%d = ((const Variant&)v%d).to%s()   [was %s, %s]\n", i, j, M[j]->t == T_LIST ? "List" : M[j]->t == T_ARRAY ? "Array" : "Map", tname[m.t], hc);
       const Variant& cv = *V[j];
       if (M[j]->t == T_LIST) v = cv.toList(); else if (M[j]->t == T_ARRAY) v = cv.toArray(); else v = cv.toMap();
       MV t(*M[j]); *M[i] = t; bump(i); cnt("op_assign_view"); break; }
+    case K_ASSIGN_OWN: {
+      // typed overload given the receiver's own value: on the variable itself or on an element reached through the mutable accessors
+      Variant* e = &v; MV* em = &m; Text lhs; lhs.addf("v%d", i); bool nested = false;
+      if (isContainer(m.t) && m.kids.n && r.chance(2, 5)) { MV* dm = 0; setctxf("Variant.to%s-mutable/descend", m.t == T_LIST ? "List" : m.t == T_ARRAY ? "Array" : "Map"); Variant* d = descendMutable(v, m, r, dm, lhs); if (d) { e = d; em = dm; nested = true; } }
+      static const int heapT[] = { T_STRING, T_LIST, T_ARRAY, T_MAP };
+      int want = (isHeap(em->t) && r.chance(7, 8)) ? em->t : heapT[r.below(4)];
+      bool mut = r.chance(1, 2);
+      bool changed = assignOwnValue(*e, *em, want, mut, nested, lhs.c());
+      if (changed) bump(i);
+      cnt("op_assign_own_value"); if (!changed) cnt("op_assign_own_value_same_type"); if (nested) cnt("op_assign_own_value_nested");
+      break; }
     default: break;
     }
     if (kind == K_MUTATE || kind == K_MUTATE2) setctxf("%s", mutCtx);
@@ -627,6 +679,7 @@ int main(int argc, char** argv) {
   cnt("native_values_compared", g_cmpNative); cnt("coercions_compared", g_cmpCoerce); cnt("coercions_open_skipped", g_coerceSkipped);
   cnt("equalities_compared", g_eqChecked); cnt("equalities_open_skipped", g_eqSkipped); cnt("copy_equalities_checked", g_copyEq);
   cnt("cow_clones_of_shared_payload", g_cowClones); cnt("nested_cow_clones", g_nestedClones); cnt("mutations_through_accessor", g_mutations);
+  cnt("own_value_inplace_string", g_ownInPlace[T_STRING]); cnt("own_value_inplace_list", g_ownInPlace[T_LIST]); cnt("own_value_inplace_array", g_ownInPlace[T_ARRAY]); cnt("own_value_inplace_map", g_ownInPlace[T_MAP]);
   (void)g_sharedBefore;
   leakCheck("Variant/leak");
   finish();
